@@ -176,7 +176,7 @@ impl quote::ToTokens for ParamsGenerator<'_> {
                     stream,
                     impl_t,
                     syn::token::Colon::default(),
-                    syn::Ident::new("Sync", proc_macro2::Span::call_site())
+                    core_marker("Sync")
                 );
 
                 if self.takes_self_by_value.0 {
@@ -184,7 +184,7 @@ impl quote::ToTokens for ParamsGenerator<'_> {
                         stream,
                         syn::token::Plus::default(),
                         // In case T is not a reference, it has to be Send
-                        syn::Ident::new("Send", proc_macro2::Span::call_site())
+                        core_marker("Send")
                     );
                 }
 
@@ -342,4 +342,10 @@ fn push_impl_t_bounds(
             }
         }
     }
+}
+
+/// `::core::marker::$ident`, independent of what the invoking scope calls `Sync` or `Send`
+pub fn core_marker(ident: &str) -> TokenStream {
+    let ident = syn::Ident::new(ident, proc_macro2::Span::call_site());
+    quote::quote! { ::core::marker::#ident }
 }
